@@ -736,7 +736,8 @@ class Spec:
     required_theorems = ["Mhd.C15.url_roundtrip_tokens", "Mhd.C15.url_every_call_accepts", "Mhd.C15.url_roundtrip",
                          "Mhd.C15.url_split_independent", "Mhd.C15.url_no_fault",
                          "Mhd.C15.multipart_all_inputs", "Mhd.C15.multipart_roundtrip",
-                         "Mhd.C15.multipart_split_independent", "Mhd.C15.multipart_nested_roundtrip"]
+                         "Mhd.C15.multipart_split_independent", "Mhd.C15.multipart_nested_roundtrip",
+                         "Mhd.C15.multipart_preamble_roundtrip", "Mhd.C15.multipart_roundtrip_syntactic"]
     trusted_base = ["Lean 4 kernel", "axioms: propext, Classical.choice, Quot.sound at most (audited per theorem)",
                     "hand-written model lean/Mhd/Model/PP*.lean tied to postprocessor.c by this run's correspondence "
                     "(it includes small models of MHD_unescape_plus, MHD_str_pct_decode_in_place_lenient_, "
